@@ -543,7 +543,11 @@ func (s *SendStream) CancelWrite(errorCode StreamErrorCode) {
 
 func (s *SendStream) enableResetStreamAt() {
 	s.mutex.Lock()
-	s.supportsResetStreamAt = true
+	// A stream that has already been reset sent a RESET_STREAM frame (the reliable size was ignored).
+	// Changing the reliable offset under that reset would corrupt the accounting of outstanding frames.
+	if s.resetErr == nil {
+		s.supportsResetStreamAt = true
+	}
 	s.mutex.Unlock()
 }
 
